@@ -429,3 +429,12 @@ _targets_before_observers = targets
 def targets():      # noqa: F811
     from . import purity
     return _targets_before_observers() + [purity.target_observers(["circuit/base", "circuit/series", "circuit/parallel", "circuit/circuit", "circuit/circuit_builder", "circuit/transmission_line_model"], "circuit observers keep no state")]
+
+
+_targets_before_traversal = targets
+
+
+def targets():      # noqa: F811
+    """+ completeness of the traversals for every connection tree (pyvc.hoare): every element is listed exactly once"""
+    from . import traversal
+    return _targets_before_traversal() + traversal.targets()
